@@ -2,7 +2,8 @@ from typing import Union
 
 from pydbml.classes import Column, Enum, Expression
 from pydbml.renderer.dbml.default.renderer import DefaultDBMLRenderer
-from pydbml.renderer.dbml.default.utils import comment_to_dbml, note_option_to_dbml, quote_string, prepare_text_for_dbml
+from pydbml.renderer.dbml.default.utils import comment_to_dbml, note_option_to_dbml, quote_string, prepare_text_for_dbml, \
+    quote_name, quote_type
 from pydbml.renderer.sql.default.utils import get_full_name_for_sql
 
 
@@ -35,7 +36,7 @@ def render_options(model: Column) -> str:
     if model.properties:
         if model.table and model.table.database and model.table.database.allow_properties:
             for key, value in model.properties.items():
-                options.append(f'{key}: {quote_string(value)}')
+                options.append(f'{quote_name(key)}: {quote_string(value)}')
 
     if options:
         return f' [{", ".join(options)}]'
@@ -49,7 +50,7 @@ def render_column(model: Column) -> str:
     if isinstance(model.type, Enum):
         result += get_full_name_for_sql(model.type)
     else:
-        result += model.type
+        result += quote_type(model.type)
 
     result += render_options(model)
     return result
